@@ -508,7 +508,7 @@ class Interp:
         short = fs.split('.')[-1]
         kw = {k.arg: k.value for k in c.keywords if k.arg}
         # ---- numpy / math
-        if fs in ('math.sqrt', 'np.sqrt', 'float', 'int', 'abs', 'np.abs', 'np.exp', 'np.angle', 'np.conj', 'np.real',
+        if fs in ('math.sqrt', 'np.sqrt', 'float', 'int', 'abs', 'np.abs', 'np.exp', 'np.angle', 'np.conj', 'np.conjugate', 'np.absolute', 'np.square', 'np.ascontiguousarray', 'np.real',
                   'np.imag', 'np.copy', 'np.array', 'np.asarray', 'np.log2', 'np.log10', 'linear2dB'):
             return self.ev(c.args[0], env, fn)
         if fs in ('np.eye', 'np.identity'):
